@@ -96,6 +96,10 @@ func subsets(n int) [][]int {
 
 func main() {
 	flag.Parse()
+	if v, ok := ev.ReplayRequested(); ok {
+		fmt.Printf("  this check enumerates inputs; the replay artefact names the failing input directly: %v\n", v.Replay)
+		return
+	}
 	r := ev.Start("C19")
 	defer r.RecoverMain()
 	defer world.Cleanup()
